@@ -32,8 +32,8 @@ GROUPS = [["point", "multipoint", "line", "multiline"], ["polygon"], ["multipoly
 
 def combos(tier, seed):
     if tier == "quick":
-        other = ["float32", "int32", "int64", "int16"][seed % 4]
-        return [("float64", "float64"), (other, other)]
+        other = ["float32", "int32", "int64"][seed % 3]
+        return [("float64", "float64"), ("int16", "int16"), (other, other)]
     return [("float64", "float64"), ("float32", "float32"), ("int64", "int64"),
             ("int32", "int32"), ("int16", "int16"), ("float64", "int32"), ("int32", "float64"),
             ("float32", "float64")]
